@@ -1229,7 +1229,9 @@ func c09_runC09(e *Env) {
 		"ctxshare schedules (1..3 groups of 2..5 evaluations, each group under ONE WithCancel/WithTimeout/WithDeadline context that is cancelled — or expires — only after the group's short members have returned " +
 		"while its long members are still running, members started early or after the first ones returned, through risor.Eval / EvalCode / Call / vm.Run / vm.New+Run; closed-form results and the Lean context model), " +
 		"and config schedules (2..6 evaluations with their own risor options — WithoutGlobal / WithGlobalOverride on attributes of standard-library modules, top-level WithoutGlobal, or none — " +
-		"that read a pool of 1..5 of 22 module attributes before and after the others ran; reference = the evaluation alone in a fresh process and the Lean configuration model; concurrently and back to back); " +
+		"that read a pool of 1..5 of 22 module attributes before and after the others ran; reference = the evaluation alone in a fresh process and the Lean configuration model; concurrently and back to back), " +
+		"and import schedules (2..5 evaluations on own VMs sharing ONE LocalImporter / FSImporter over modules that load, do not compile or have no file, 1..4 imports each, the evaluation's own context cancelled " +
+		"while its last import is inside Importer.Import; the order of the Import calls enforced by a sequencer or left to the scheduler; every answer of the importer and every result against the evaluation alone with a fresh importer and the Lean importer model); " +
 		"non-trivial when >= 2 evaluations touch the same inventoried location (always, by construction, except single-snippet sets without shared state); distinct by the full job text"
 	tab := c09LoadTable(e)
 	if len(tab.byFn) < 10 {
@@ -1413,6 +1415,13 @@ func c09_runC09(e *Env) {
 		seenCfg[key] = true
 		scheds = append(scheds, sched{job, key, nil, "config", nil, nil, &h})
 	}
+	// import schedules (c09imp.go: one importer shared by evaluations whose contexts may end during a
+	// first load), on their own random stream, run and judged in this process
+	nImp := 40
+	if !e.Quick {
+		nImp = 600
+	}
+	c09RunImportSchedules(e, e.Rng.Fork(), tmp, nImp)
 
 	// the stand-alone reference of a registry evaluation: evaluation k by itself in a FRESH process
 	type aloneKey struct {
